@@ -12,7 +12,9 @@ R01.5 per segment, at every yield of the segmenter: even declared size >= 16 equ
 R01.6 the attribute byte as a function of the constructor's flags, by interpreting the class whatever container it keeps
       them in: 0x80 iff EFLR, 0x40 iff not first, 0x20 iff not last; modifying methods change bit 0 only.
 R01.7 every visible record = UNORM(length) | FF 01 | one segment; length even, 20..declared maximum; the record loop
-      tiles the file.
+      tiles the file (R01.8).
+R01.9 (= C10 R10.1-R10.3) the output buffer and the byte writer put exactly those bytes, in order, into a file that is
+      replaced by the first write and appended to afterwards.
 """
 
 from __future__ import annotations
@@ -47,7 +49,8 @@ def _even(cons, e):
 
 def run(chk, model: SegmentModel = None, rules=None):
     ix, cg = chk.ix, chk.cg
-    m = model or SegmentModel(ix, cg)
+    from ..segmodel import shared_model
+    m = model or shared_model(ix, cg)
     chk.trusted = TRUSTED
     for f in (m.segmenter, m.vr_builder, m.writer_init, m.record_loop[0]):
         chk.consult(f)
@@ -59,25 +62,44 @@ def run(chk, model: SegmentModel = None, rules=None):
                                  "raise_paths": len(m.raises)}
     want = (lambda r: rules is None or r in rules)
 
+    # (each rule group is guarded: an analysis failure in one of them is reported only if no other group found a violation)
     if want("R01.1"):
-        r01_1_sul(chk, m)
+        chk.guard(r01_1_sul, chk, m)
     if want("R01.2"):
-        r01_2_file_ownership(chk, m)
+        chk.guard(r01_2_file_ownership, chk, m)
     if want("R01.3"):
-        r01_3_declared_is_enforced(chk, m)
+        chk.guard(r01_3_declared_is_enforced, chk, m)
     if want("R01.4"):
-        r01_4_accepted_lengths(chk, m)
+        chk.guard(r01_4_accepted_lengths, chk, m)
     if want("R01.6"):
-        r01_6_attribute_byte(chk, m)
+        chk.guard(r01_6_attribute_byte, chk, m)
     if m.error is None:
         if want("R01.5"):
-            r01_5_segments(chk, m)
+            chk.guard(r01_5_segments, chk, m)
         if want("R01.7"):
-            r01_7_visible_record(chk, m)
+            chk.guard(r01_7_visible_record, chk, m)
         if want("R01.8"):
-            r01_8_tiling(chk, m)
+            chk.guard(r01_8_tiling, chk, m)
+    if want("R01.9"):
+        chk.guard(r01_9_buffer_and_file, chk)
     if m.error is not None and not chk.violations():
         raise m.error
+
+
+def r01_9_buffer_and_file(chk):
+    """Between the record loop and the file: the output buffer hands on exactly the bytes it was given, in order, for
+    every fill level and record size (= C10 R10.1 / R10.2), and the byte writer replaces a pre-existing file and then
+    only appends (= C10 R10.3) - so what is on disk is the label followed by the visible records and nothing else."""
+    from . import c10
+    from ..report import Check
+    tmp = Check("C10", "quick", 0, chk.ix, chk.cg, quiet=True)
+    tmp.guard(c10.r10_1_buffer, tmp)
+    tmp.guard(c10.r10_3_byte_writer, tmp)
+    for o in tmp.obs:
+        o.rule = "R01.9"
+        chk.obs.append(o)
+    chk.consulted_functions |= tmp.consulted_functions
+    chk.deferred.extend(tmp.deferred)
 
 
 # ---------------------------------------------------------------------------------------------------- R01.1
